@@ -58,7 +58,7 @@ SHARDS = {"quick": 4, "thorough": 16}
 BUDGET_S = {"quick": 180, "thorough": 1500}
 DECIDING = ["wellformed", "visible_only", "sensor_at_most_one", "target_at_most_one", "munkres_optimal", "munkres_masked_value",
             "greedy_argmax", "allvisible_exact", "random_valid", "random_seeded", "relabel", "normalize", "reward_formula",
-            "engine_decision", "tasks_table"]
+            "engine_decision", "tasks_table", "input_unchanged"]
 MANIFEST = {
     "technique": "runtime monitoring: bounded-exhaustive + random differential testing of Decision.calculate / Reward against an independent "
                  "brute-force / Hungarian reference, plus postconditions on a real tasking scenario and its tasks table",
@@ -251,7 +251,13 @@ def call_policy(ctx, pol, R, V, wit, seed=0, obj=None):
     """Run the repository's policy; an exception on a finite matrix / boolean mask is a violation."""
     try:
         obj = obj or _make(pol, seed)
-        return obj.calculate(R, V)
+        R0, V0 = np.array(R, copy=True), np.array(V, copy=True)
+        D = obj.calculate(R, V)
+        # the matrices belong to the caller (the engine stores them as the step's rewards / visibility afterwards)
+        ctx.check(R0.tobytes() == np.asarray(R).tobytes() and V0.tobytes() == np.asarray(V).tobytes(), f"{pol}-modified-its-input",
+                  f"{pol}.calculate changed the caller's {'reward' if R0.tobytes() != np.asarray(R).tobytes() else 'visibility'} matrix in place "
+                  f"(max change {float(np.abs(np.asarray(R, dtype=float) - R0).max()):.3g})", wit, mon="input_unchanged")
+        return D
     except Exception as e:  # noqa: BLE001
         ctx.check(False, f"{pol}-raised", f"{pol}.calculate raised {type(e).__name__}: {e} on a {R.shape[0]}x{R.shape[1]} problem", wit, mon="wellformed")
         return None
@@ -927,13 +933,17 @@ def check_scenario(ctx, dec_idx, rew_idx, steps, variant=0):
     orig_calc, orig_norm = Decision.calculate, Reward.normalizeMetrics
 
     def calc(self, R, V):
+        R_in, V_in = np.array(R, copy=True), np.array(V, copy=True)
         try:
             D = orig_calc(self, R, V)
+            ctx.check(R_in.tobytes() == np.asarray(R).tobytes() and V_in.tobytes() == np.asarray(V).tobytes(), f"{pol}-modified-its-input",
+                      f"{type(self).__name__}.calculate changed the engine's reward / visibility matrix in place (max reward change {float(np.abs(np.asarray(R, dtype=float) - R_in).max()):.3g})",
+                      _wit("decision", pol, R_in, V_in, origin="scenario", scenario=wit0), mon="input_unchanged")
         except Exception as e:  # noqa: BLE001
             ctx.check(False, f"{pol}-raised", f"{type(self).__name__}.calculate raised {type(e).__name__}: {e} inside the engine",
                       _wit("decision", pol, R, V, origin="scenario", scenario=wit0), mon="engine_decision")
             raise
-        calls.append((np.array(R, copy=True), np.array(V, copy=True), np.array(D, copy=True), type(self).__name__))
+        calls.append((R_in, V_in, np.array(D, copy=True), type(self).__name__))
         return D
 
     def norm(self, M):
